@@ -283,9 +283,25 @@ def shards(tier, seed):
 def run_shard(d):
     acc = Acc()
     if d["k"] == "sets":
+        import pycaption
+
+        shared = {"sami": pycaption.SAMIWriter(), "dfxp": pycaption.DFXPWriter()}
+        prev_assign = None
         for i, assign in enumerate(assignments(d["nl"], d["lat"])):
             if i % d["nparts"] != d["part"] or (i // d["nparts"]) % d["stride"]:
                 continue
+            # the same writer object used for one set after the other must write what a fresh writer writes
+            for name, cls in (("sami", pycaption.SAMIWriter), ("dfxp", pycaption.DFXPWriter)):
+                try:
+                    a = shared[name].write(build(assign))
+                    b = cls().write(build(assign))
+                except Exception as e:  # noqa
+                    a, b = "raises", "raises:" + type(e).__name__
+                acc.case(("reuse", name, assign), True, None, None)
+                if a != b:
+                    acc.violation(f"C14/{name}-write/reused-writer-output-differs/langs{d['nl']}", {"k": "reuse-" + name, "assign": assign, "prev": prev_assign, "_env": d["_env"]}, {"reused": a[-500:], "fresh": b[-500:]})
+                    shared[name] = cls()
+            prev_assign = assign
             for fn, name in ((eval_sami, "sami"), (eval_dfxp, "dfxp")):
                 v, out = fn(assign)
                 acc.case((name, assign), True, out, {"route": name, "cues_ms_per_language": assign, "hashseed": os.environ.get("PYTHONHASHSEED")})
@@ -349,6 +365,16 @@ def replay(case):
         except Exception:  # noqa
             return [{"sig": "_replay-error", "detail": (r.stdout + r.stderr)[-500:]}]
     k = case["k"]
+    if k.startswith("reuse-"):
+        import pycaption
+
+        cls = pycaption.SAMIWriter if k == "reuse-sami" else pycaption.DFXPWriter
+        w = cls()
+        if case.get("prev"):
+            w.write(build(_t(case["prev"])))
+        assign = _t(case["assign"])
+        a, b = w.write(build(assign)), cls().write(build(assign))
+        return [{"sig": f"C14/{k[6:]}-write/reused-writer-output-differs/langs{len(assign)}", "detail": None}] if a != b else []
     if k == "doc":
         v, _ = eval_docs(_t(case["var"]))
         return [{"sig": f"C14/{kind}", "detail": det} for kind, det in v]
